@@ -259,21 +259,45 @@ func TestC11(t *testing.T) {
 			}
 		}
 		ps := ledger.Postings{ledger.NewPosting("world", "a", "USD/2", big.NewInt(7))}
+		// requests that write nothing may come first: a dry run, a create that is refused; the copy is as writable afterwards
+		prelude := rapid.SampledFrom([]string{"none", "none", "dry-run", "refused", "dry-run+refused"}).Draw(rt, "beforeTheFirstWrite")
+		if strings.Contains(prelude, "dry-run") {
+			if out := w.CreateTx(cp, TxRequest{Postings: ps, DryRun: true}); out.Kind != ErrNone {
+				w.V("C11", "a dry run sent to the imported ledger before any write failed: %v\nsource history:\n  %s", out.Err, src.History())
+			}
+		}
+		if strings.Contains(prelude, "refused") {
+			if out := w.CreateTx(cp, TxRequest{Postings: ledger.Postings{ledger.NewPosting("nobody:home", "a", "XAU/9", big.NewInt(5))}}); out.Kind != ErrInsufficientFunds {
+				w.V("C11", "a create drawing on an empty account of the imported ledger was answered %q (%v), expected insufficient funds\nsource history:\n  %s", out.Kind, out.Err, src.History())
+			}
+		}
+		// ids continue the imported ones: exactly, unless a request rolled back before (gaps from rolled-back writes are allowed)
+		exact := prelude == "none"
+		follows := func(got, base uint64) bool {
+			if exact {
+				return got == base+1
+			}
+			return got > base
+		}
 		metaFirst := strings.HasPrefix(path, "meta-then")
 		if path == "meta-then-single" {
 			// the write that takes the ledger out of 'initializing' allocates no transaction id
 			if kind := w.SaveAccountMeta(cp, "a:b", map[string]string{"after": "import"}, false); kind != ErrNone {
 				w.V("C11", "first write (account metadata) on the imported ledger failed: %q\nsource history:\n  %s", kind, src.History())
 			}
-			maxLog++
+			if got := cp.M.Logs[len(cp.M.Logs)-1].ID; !follows(got, maxLog) {
+				w.V("C11", "first write (account metadata, before it: %s) on the imported ledger got log id %d, the ledger holds ids up to %d", prelude, got, maxLog)
+			} else {
+				maxLog = got
+			}
 		}
 		switch path {
 		case "single", "meta-then-single":
 			out := w.CreateTx(cp, TxRequest{Postings: ps})
 			if out.Kind != ErrNone {
 				w.V("C11", "first transaction (%s) on the imported ledger failed: %v\nsource history:\n  %s", path, out.Err, src.History())
-			} else if *out.Tx.ID != maxTx+1 || *out.Log.ID != maxLog+1 {
-				w.V("C11", "first transaction (%s) on the imported ledger got tx id %d / log id %d, expected %d / %d", path, *out.Tx.ID, *out.Log.ID, maxTx+1, maxLog+1)
+			} else if !follows(*out.Tx.ID, maxTx) || !follows(*out.Log.ID, maxLog) {
+				w.V("C11", "first transaction (%s, before it: %s) on the imported ledger got tx id %d / log id %d, the ledger holds ids up to %d / %d", path, prelude, *out.Tx.ID, *out.Log.ID, maxTx, maxLog)
 			}
 		default:
 			els := []bulking.BulkElement{createElement(ps, ""), createElement(ledger.Postings{ledger.NewPosting("world", "bank", "EUR", big.NewInt(3))}, "")}
@@ -291,11 +315,11 @@ func TestC11(t *testing.T) {
 					w.V("C11", "first write (%s) on the imported ledger: element %d failed: %v\nsource history:\n  %s", path, i, r.Error, src.History())
 					continue
 				}
-				nextLog++
 				if metaFirst && i == 0 {
-					if r.LogID != nextLog {
-						w.V("C11", "first write (%s): the metadata element got log id %d, expected %d", path, r.LogID, nextLog)
+					if !follows(r.LogID, nextLog) {
+						w.V("C11", "first write (%s, before it: %s): the metadata element got log id %d, the ledger holds ids up to %d", path, prelude, r.LogID, nextLog)
 					}
+					nextLog = r.LogID
 					// keep the model in step
 					at := w.Env.Sim.Clock()
 					for _, row := range w.Env.Sim.Rows(cp.Bucket, "logs") {
@@ -307,11 +331,12 @@ func TestC11(t *testing.T) {
 					cp.M.Logs = append(cp.M.Logs, logOf(r.LogID, "SET_METADATA", nil))
 					continue
 				}
-				nextTx++
 				tx := r.Data.(ledger.Transaction)
-				if *tx.ID != nextTx || r.LogID != nextLog {
-					w.V("C11", "first write (%s): element %d got tx id %d / log id %d, expected %d / %d", path, i, *tx.ID, r.LogID, nextTx, nextLog)
+				if !follows(*tx.ID, nextTx) || !follows(r.LogID, nextLog) {
+					w.V("C11", "first write (%s, before it: %s): element %d got tx id %d / log id %d, the ledger holds ids up to %d / %d", path, prelude, i, *tx.ID, r.LogID, nextTx, nextLog)
 				}
+				nextTx, nextLog = *tx.ID, r.LogID
+				exact = true // from here on nothing is rolled back
 				// keep the model in step
 				mtx := txToModel(tx)
 				cp.M.AddTx(mtx, nil, nil)
@@ -324,7 +349,7 @@ func TestC11(t *testing.T) {
 		w.Drive(rt, cp, nil, HistOpts{Steps: 6, Reverts: true, Metadata: true, FinalReads: true})
 		st.Case(sum.Key+path, sum.Reverts >= 1 && sum.Failures >= 1 && path != "single", func() any {
 			return map[string]any{"first_write_path": path, "source_history": src.Ops}
-		}, "path:"+path)
+		}, "path:"+path, "before-the-first-write:"+prelude)
 		st.Add("completed_checks", 1)
 	})
 }
